@@ -386,3 +386,56 @@ def graph_behaviours(dot_path):
 
 def beh_key(beh):
     return json.dumps(beh, sort_keys=True)
+
+
+# --------------------------------------------------------------------------- crash-proof parallel map
+
+def run_parallel(fn, args, jobs, on_crash):
+    """[fn(a) for a in args] on `jobs` forked worker processes.  A worker that dies (the code under
+    test segfaults on some generated module) loses only the case it was working on: that case gets
+    on_crash(a, exitcode) and a new worker takes over the rest of its share."""
+    import multiprocessing, threading
+    ctx = multiprocessing.get_context("fork")
+    results = [None] * len(args)
+    jobs = max(1, min(jobs, len(args)))
+    shares = [list(range(k, len(args), jobs)) for k in range(jobs)]
+
+    def child(conn, idxs):
+        for i in idxs:
+            try:
+                conn.send((i, fn(args[i])))
+            except BaseException as e:                    # fn handles its own errors; this is a harness bug
+                conn.send((i, ("__exception__", "%s: %s" % (type(e).__name__, e))))
+        conn.close()
+        os._exit(0)
+
+    def serve(idxs):
+        todo = list(idxs)
+        while todo:
+            parent, kid = ctx.Pipe(duplex=False)
+            p = ctx.Process(target=child, args=(kid, todo))
+            p.start()
+            kid.close()
+            done = 0
+            try:
+                while done < len(todo):
+                    i, r = parent.recv()
+                    results[i] = r
+                    done += 1
+            except EOFError:
+                pass
+            p.join()
+            if done < len(todo):
+                results[todo[done]] = on_crash(args[todo[done]], p.exitcode)
+                done += 1
+            todo = todo[done:]
+
+    threads = [threading.Thread(target=serve, args=(sh,)) for sh in shares if sh]
+    for t in threads:
+        t.start()
+    for t in threads:
+        t.join()
+    for r in results:
+        if isinstance(r, tuple) and r and r[0] == "__exception__":
+            raise RuntimeError("worker raised: " + r[1])
+    return results
